@@ -159,6 +159,12 @@ func numOf(x Value) float64 {
 
 type rowsType []interface{}
 
+type selfPtr *selfPtr
+type hiddenMap struct {
+	Name string
+	m    map[float64]int
+}
+
 func keyString(v Value) string {
 	switch v.T {
 	case "str":
@@ -793,6 +799,14 @@ func shapeOfKind(kind string) interface{} {
 		var x interface{}
 		x = &x
 		return x
+	case "ptrself": // a defined pointer type that points at itself (no interface in between)
+		var q selfPtr
+		q = &q
+		return q
+	case "stringermap": // a map keyed by an interface type that has methods
+		return map[fmt.Stringer]int{stringerValue{"a"}: 1}
+	case "hiddennanmap": // a struct with an unexported map field that has a NaN key
+		return hiddenMap{Name: "h", m: map[float64]int{math.NaN(): 1, 2: 3}}
 	case "ptrptrmap":
 		m := map[string]int{"a": 1}
 		pm := &m
